@@ -132,3 +132,47 @@ theorem parseDoc_sound (ts : List XTok) (n : Node) (hc : noComment ts = true) (h
     | _ => simp [parseDoc] at h
 
 end Gomjml.Tree
+
+namespace Gomjml.Tree
+
+theorem partsToks_append (a b : List (Part Node)) : partsToks (a ++ b) = partsToks a ++ partsToks b := by
+  induction a with
+  | nil => rfl
+  | cons p r ih => cases p <;> simp [partsToks, ih]
+
+/-- **Completeness**: the tree builder reads back every serialised tree — what a plain XML tokeniser reports for a tree
+    is parsed into exactly that tree, whatever follows it (given fuel for its tokens) -/
+theorem parseBody_complete : ∀ (fuel : Nat) (name : String) (ps : List (Part Node)) (rest : List XTok),
+    (partsToks ps).length < fuel → parseBody fuel name (partsToks ps ++ XTok.stop name :: rest) = some (ps, rest) := by
+  intro fuel
+  induction fuel with
+  | zero => intro name ps rest h; omega
+  | succ fuel ih =>
+    intro name ps rest h
+    cases ps with
+    | nil => simp [partsToks, parseBody]
+    | cons p r =>
+      cases p with
+      | text s =>
+        simp only [partsToks, List.cons_append, parseBody]
+        have := ih name r rest (by simp only [partsToks, List.length_cons] at h; omega)
+        simp [this]
+      | node n =>
+        obtain ⟨nm, a, m⟩ := n
+        simp only [partsToks, Node.toks, List.cons_append, List.append_assoc, parseBody]
+        have hlen : (partsToks (Part.node (Node.mk nm a m) :: r)).length = (partsToks m).length + 2 + (partsToks r).length := by
+          simp [partsToks, Node.toks]; omega
+        rw [hlen] at h
+        have h1 := ih nm m (partsToks r ++ XTok.stop name :: rest) (by omega)
+        simp only [List.nil_append]
+        rw [h1]
+        have h2 := ih name r rest (by omega)
+        simp [h2]
+
+theorem parseDoc_complete (n : Node) (rest : List XTok) : parseDoc (n.toks ++ rest) = some n := by
+  obtain ⟨nm, a, m⟩ := n
+  simp only [Node.toks, List.cons_append, List.append_assoc, parseDoc, List.nil_append]
+  have := parseBody_complete ((partsToks m ++ XTok.stop nm :: rest).length + 1) nm m rest (by simp; omega)
+  rw [this]
+
+end Gomjml.Tree
